@@ -41,7 +41,7 @@ var dims = []dim{
 	{"env", []string{"none", "new", "override", "repeated", "override+repeated+new"}},
 	{"devnodes", []string{"none", "char-unspecified", "char-specified", "block-unspecified", "fifo-unspecified", "fifo-specified", "block-type-only",
 		"char-full-attrs", "char-uid0", "replace-existing", "same-path-twice", "same-path-twice-different-type", "replace+new", "no-hostpath-specified", "char-perm-r", "major-only", "only-uid-set", "only-gid-set", "uid-set-gid-zero", "mode-with-type-and-special-bits"}},
-	{"edit-mounts", []string{"none", "new", "replace-existing", "same-dest-twice", "deep-then-shallow", "non-clean-dest", "replace+siblings"}},
+	{"edit-mounts", []string{"none", "new", "replace-existing", "same-dest-twice", "deep-then-shallow", "non-clean-dest", "replace+siblings", "children-before-parents-spelled-with-trailing-slash"}},
 	{"edit-hooks", []string{"none", "prestart", "createRuntime", "createContainer", "startContainer", "poststart", "poststop", "two-in-one-stage", "one-per-stage"}},
 	{"gids", []string{"none", "zero-only", "dup-5-5", "new-9-11", "zero-9-zero-7", "process-gid-2000-1-uid-1000"}},
 	{"rdt", []string{"nil", "set", "set-empty-closid"}},
@@ -290,6 +290,10 @@ func buildEdits(c Case) *specs.ContainerEdits {
 		e.Mounts = []*specs.Mount{{HostPath: "/h/deep", ContainerPath: "/m/a/b/c"}, {HostPath: "/h/shallow", ContainerPath: "/m"}, {HostPath: "/h/mid", ContainerPath: "/m/a"}, {HostPath: "/h/mid2", ContainerPath: "/n/a"}}
 	case "non-clean-dest":
 		e.Mounts = []*specs.Mount{{HostPath: "/h/nc", ContainerPath: "/q//r/../s/"}, {HostPath: "/h/root", ContainerPath: "/"}}
+	case "children-before-parents-spelled-with-trailing-slash":
+		// each parent is exactly one level above a child that precedes it; parents are spelled with a trailing slash, a trailing "/." or plainly
+		e.Mounts = []*specs.Mount{{HostPath: "/h/c1", ContainerPath: "/data/models/cache"}, {HostPath: "/h/p1", ContainerPath: "/data/models/"}, {HostPath: "/h/c2", ContainerPath: "/srv/a/b/"},
+			{HostPath: "/h/p2", ContainerPath: "/srv/a/."}, {HostPath: "/h/c3", ContainerPath: "/opt/x"}, {HostPath: "/h/p3", ContainerPath: "/opt"}, {HostPath: "/h/p0", ContainerPath: "/data/"}}
 	case "replace+siblings":
 		e.Mounts = []*specs.Mount{{HostPath: "/h/s1", ContainerPath: "/existing/z"}, {HostPath: "/h/repl", ContainerPath: "/existing/dest", Type: "tmpfs"}, {HostPath: "/h/s2", ContainerPath: "/existing/a"}}
 	}
